@@ -100,6 +100,9 @@ def run(replay=None):
         if ho and mo and ho.startswith("D ") and mo.startswith("D "):
             if exprlib.ac_normal(ho[2:]) == exprlib.ac_normal(mo[2:]):
                 stats["opt_ac_equal"] += 1
+            elif exprlib.dags_equal_mod_sharing(ho[2:], mo[2:], ulps=64):
+                # same structure, folded transcendental constants a few ulps apart (libm vs Eigen)
+                stats["opt_ac_equal"] += 1
             else:
                 corr_bad.append((p, "dumpo", ho, mo))
         else:
